@@ -83,3 +83,44 @@ Theorem C01_oversize_settling_invents_no_payload :
     In (OSend h m (Some q)) (deliver cfg vs os) ->
     exists m0 : SchemaTypes.msg, In (OSend h m0 (Some q)) os.
 Proof. exact deliver_payloads. Qed.
+
+(* ---------- interleaved semantics (Model/Conc.v): every schedule of suspended requests, disconnects, time-outs ---------- *)
+From Coq Require Import List NArith.
+From NW Require Import Model.Conc Proofs.ConcDefs Proofs.ConcEv Proofs.ConcInv Proofs.ConcSmall Proofs.ConcSource Gen.ConcFlags.
+Import ListNotations.
+Local Open Scope N_scope.
+
+Theorem C01_conc_message_confinement :
+  forall (cf : ccfg) (es : list ev) (e : ev) (c : conn) (ch : chan) 
+      (from : user) (payload : N),
+    let s := cstate_after cf es in
+    In (OMsg c ch from payload) (snd (cstep cf s e)) ->
+    exists (u : user) (o : oid),
+      cuser (cg s) c = Some u /\
+      In u (members (objs (cg s) o)) /\
+      In from (members (objs (cg s) o)) /\
+      (exists (t : tid) (k : task) (ok : bool) (hint : user),
+         e = ERun t ok hint /\
+         In (t, k) (tasks s) /\
+         t_me k = from /\
+         t_conn k <> Some c /\
+         ((exists id : N, t_pc k = PStart (RBcast ch payload id)) \/
+          (exists id : N, t_pc k = PBcastGate ch payload id) \/
+          (exists id : N, t_pc k = PBcastWait ch o payload id))).
+Proof. exact conc_message_confinement. Qed.
+
+Theorem C01_source_segment_layout :
+  forallb snd conc_source_shape = true.
+Proof. exact source_segment_layout. Qed.
+
+From NW Require Import Proofs.ConcMore.
+
+Theorem C01_conc_namesake_inherits_during_cleanup_refuted :
+  let r := crun cf_k cinit namesake_schedule in
+    In (OMsg 3 7 10 5) (snd r) /\
+    forallb (fun e : ev => match e with
+                           | EReq 3 _ => false
+                           | _ => true
+                           end) namesake_schedule = true /\
+    (exists o : oid, cmap (cg (fst r)) 7 = Some o /\ covered (fst r) 20 7 o).
+Proof. exact conc_namesake_inherits_during_cleanup_refuted. Qed.
